@@ -82,6 +82,16 @@ func (cl *CheckpointList) Save(fs storage.FileSystem) (string, error) {
 	return file.URI(), nil
 }
 
+// KeepFiles makes the table files of all checkpoints outlive the table objects.
+func (cl *CheckpointList) KeepFiles() {
+	for _, cp := range cl.checkpoints {
+		cp.Levels.KeepFiles()
+	}
+	for _, cp := range cl.checkpointsPendingRemoval {
+		cp.Levels.KeepFiles()
+	}
+}
+
 func (cl *CheckpointList) IsEmpty() bool {
 	return len(cl.checkpoints) == 0
 }
